@@ -2211,10 +2211,13 @@ class unyt_array(np.ndarray):
          [8. 8.]] km*s**2
         """
         res_units = self.units * getattr(b, "units", NULL_UNIT)
-        ret = self.view(np.ndarray).dot(np.asarray(b), out=out) * res_units
-        if out is not None:
+        if out is None:
+            return self.view(np.ndarray).dot(np.asarray(b)) * res_units
+        # write into the raw buffer of out, then label it (if it can be labelled)
+        ret = self.view(np.ndarray).dot(np.asarray(b), out=np.asarray(out))
+        if isinstance(out, unyt_array):
             out.units = res_units
-        return ret
+        return unyt_array(ret, res_units, bypass_validation=True)
 
     def take(self, indices, axis=None, out=None, mode="raise"):
         """method
